@@ -100,10 +100,12 @@ def ioErr {α} : M α := stop (.err "io")
 def allocErr {α} : M α := stop (.err "alloc")
 def ubAt {α} (site why : String) : M α := stop (.ub site why)
 
-def setTaint (why : String) : M Unit :=
-  modify fun s => match s.taint with
-    | some _ => s
-    | none => { s with taint := some why }
+def setTaint (why : String) : M Unit := fun s =>
+  match s.taint with
+  | some _ => .ok ((), s)
+  | none => .ok ((), { s with taint := some why })
+
+def getSt : M St := fun s => .ok (s, s)
 
 /-- the bytes a read of `n` delivers (possibly fewer), advancing the position;
     istream: a read that hits the end leaves the stream failed -/
@@ -119,7 +121,7 @@ def readSome (n : Nat) : M (List Nat) := fun s =>
 def readFixed (n : Nat) : M (List Nat) := do
   let got ← readSome n
   if got.length < n then
-    match (← get).dev with
+    match (← getSt).dev with
     | .file => ioErr
     | .stream => ubAt "uninit@io/device.hpp:istream_device::read"
                    "istream_device::read(T(&)[N]) ignores a short read: the uninitialised array is used as data"
@@ -144,9 +146,13 @@ def seekSet (off : Int) : M Unit := fun s =>
     else if off < 0 then .ok ((), { s with failed := true })
     else .ok ((), { s with pos := off.toNat, rest := s.data.drop off.toNat })
 
-def seekCur (d : Int) : M Unit := do
-  let s ← get
-  seekSet (Int.ofNat s.pos + d)
+/-- `seek(d, SEEK_CUR)` for d ≥ 0 (the only use): skips forward -/
+def seekCur (d : Nat) : M Unit := fun s =>
+  if s.dev == .stream && s.failed then .ok ((), s)
+  else .ok ((), { s with pos := s.pos + d, rest := s.rest.drop d })
+
+/-- fuel for a loop that consumes at least one input byte per iteration: the bytes left, plus one -/
+def fuelHere : M Nat := fun s => .ok (s.rest.length + 1, s)
 
 /-- `getc()`: both devices throw at end of file -/
 def getcChecked : M Nat := do
@@ -507,7 +513,8 @@ def copyRowIfNeeded (st : Settings) (dimx dimy : Int) (r : Rle) (d : Dest) : M D
 
 /-- `*dst_it++ = v` for each of `vals` -/
 def putRun (r : Rle) (vals : List (Nat × Nat × Nat × Nat)) : M Rle :=
-  if r.x < 0 ∨ r.x + Int.ofNat vals.length > Int.ofNat r.buf.length then
+  if vals.isEmpty then pure r          -- a clamped (≤ 0) count runs no iteration: dst_it is not dereferenced
+  else if r.x < 0 ∨ r.x + Int.ofNat vals.length > Int.ofNat r.buf.length then
     ubAt ("heap-buffer-overflow@" ++ fRle) "write through dst_it outside buf (escape 2 moved dst_it beyond the row)"
   else
     pure { r with buf := r.buf.take r.x.toNat ++ vals ++ r.buf.drop (r.x.toNat + vals.length), x := r.x + vals.length }
@@ -600,18 +607,19 @@ where
     if need ≤ 0 then pure (0, 0, 0, 0) else palAt pal idx
 
 /-- read_palette_image_rle -/
-def readPaletteImageRle (i : Info) (pitch : Int) (st : Settings) (dimx dimy : Int) (fuel : Nat) (d : Dest) : M Dest := do
+def readPaletteImageRle (i : Info) (pitch : Int) (st : Settings) (dimx dimy : Int) (d : Dest) : M Dest := do
   let pal ← readPalette i
   seekSet (wrapS 64 i.offset)
   if dimx < 0 then allocErr               -- Buf_type buf(dim.x): length_error
   else
     alloc (dimx * 4)
     let (ybeg, yend, yinc) : Int × Int × Int := if i.height > 0 then (dimy - 1, -1, -1) else (0, dimy, 1)
+    let fuel ← fuelHere
     rleLoop i pitch st dimx dimy pal yend yinc fuel
       { buf := List.replicate dimx.toNat (0, 0, 0, 0), x := 0, xend := dimx, y := ybeg, streamPos := i.offset } d
 
 /-- reader::apply -/
-def apply (i : Info) (st : Settings) (dimx dimy : Int) (fuel : Nat) (d : Dest) : M Dest := do
+def apply (i : Info) (st : Settings) (dimx dimy : Int) (d : Dest) : M Dest := do
   let ok ← isAllowed i st
   if !ok then ioErr
   else
@@ -624,11 +632,11 @@ def apply (i : Info) (st : Settings) (dimx dimy : Int) (fuel : Nat) (d : Dest) :
       let pitch := wrapU 64 (wrapU 64 p0 + 3) / 4 * 4                 -- size_t: (_pitch + 3) & ~3
       if i.bpp == 1 then readPaletteImage i pitch st dimx dimy d
       else if i.bpp == 4 then
-        if i.comp == 2 then readPaletteImageRle i pitch st dimx dimy fuel d
+        if i.comp == 2 then readPaletteImageRle i pitch st dimx dimy d
         else if i.comp == 0 then readPaletteImage i pitch st dimx dimy d
         else ioErr
       else if i.bpp == 8 then
-        if i.comp == 1 then readPaletteImageRle i pitch st dimx dimy fuel d
+        if i.comp == 1 then readPaletteImageRle i pitch st dimx dimy d
         else if i.comp == 0 then readPaletteImage i pitch st dimx dimy d
         else ioErr
       else if i.bpp == 15 ∨ i.bpp == 16 then readData15 i pitch st dimx dimy d
@@ -719,7 +727,7 @@ def scan (i : Info) : M Img := do
     else ioErr
 
 /-- the whole BMP read for one entry point -/
-def run (st : Settings) (fuel : Nat) : M Img := do
+def run (st : Settings) : M Img := do
   let i ← readHeader
   let dimx := if st.dw == 0 then i.width else st.dw
   let dimy := if st.dh == 0 then i.height else st.dh
@@ -728,11 +736,11 @@ def run (st : Settings) (fuel : Nat) : M Img := do
   | .scan => scan i
   | .view =>
     checkImageSize st dimx dimy i.width i.height
-    let d ← apply i st dimx dimy fuel (Dest.mk' st.vw st.vh st.dst.nch)
+    let d ← apply i st dimx dimy (Dest.mk' st.vw st.vh st.dst.nch)
     pure { hdr := [st.vw, st.vh], pix := d.pix }
   | _ =>
     let d ← recreateImage st dimx dimy
-    let d ← apply i st dimx dimy fuel d
+    let d ← apply i st dimx dimy d
     pure { hdr := [dimx, dimy], pix := d.pix }
 
 end Bmp
@@ -763,46 +771,49 @@ def skipComment : Nat → M Nat
     if c == 10 ∨ c == 13 then pure c else skipComment fuel
 
 /-- reader_backend::read_char -/
-def readChar (fuel : Nat) : M Nat := do
+def readChar : M Nat := do
   let c ← getcChecked
-  if c == 35 then skipComment fuel else pure c
+  if c == 35 then do
+    let fuel ← fuelHere
+    skipComment fuel
+  else pure c
 
-def skipWs (fuel : Nat) : Nat → M Nat
+def skipWs : Nat → M Nat
   | 0 => stop (.hang "fuel exhausted in read_int")
   | k + 1 => do
-    let c ← readChar fuel
-    if c == 32 ∨ c == 9 ∨ c == 10 ∨ c == 13 then skipWs fuel k else pure c
+    let c ← readChar
+    if c == 32 ∨ c == 9 ∨ c == 10 ∨ c == 13 then skipWs k else pure c
 
-def digitsLoop (fuel : Nat) : Nat → Nat → Nat → M Int
+def digitsLoop : Nat → Nat → Nat → M Int
   | 0, _, _ => stop (.hang "fuel exhausted in read_int")
   | k + 1, c, val => do
     let dig := c - 48
     if val > 214748364 - dig then ioErr      -- val > INT_MAX / 10 - dig
     else
       let val := val * 10 + dig
-      let c ← readChar fuel
-      if isDigit c then digitsLoop fuel k c val else pure (Int.ofNat val)
+      let c ← readChar
+      if isDigit c then digitsLoop k c val else pure (Int.ofNat val)
 
 /-- reader_backend::read_int -/
-def readInt (fuel : Nat) : M Int := do
-  let c ← skipWs fuel fuel
-  if !isDigit c then ioErr else digitsLoop fuel fuel c 0
+def readInt : M Int := do
+  let c ← skipWs (← fuelHere)
+  if !isDigit c then ioErr else digitsLoop (← fuelHere) c 0
 
 /-- reader_backend::read_header -/
-def readHeader (fuel : Nat) : M Info := do
-  let p ← readChar fuel
+def readHeader : M Info := do
+  let p ← readChar
   if p ≠ 80 then ioErr
   else
-    let t ← readChar fuel
+    let t ← readChar
     -- _info._type = read_char() - '0' (char is signed, the field unsigned): valid iff '1'..'6'
     if t < 49 ∨ t > 54 then ioErr
     else
       let ty : Int := Int.ofNat (t - 48)
-      let w ← readInt fuel
-      let h ← readInt fuel
+      let w ← readInt
+      let h ← readInt
       if ty == 1 ∨ ty == 4 then pure { type := ty, width := w, height := h, maxValue := 1 }
       else
-        let m ← readInt fuel
+        let m ← readInt
         if m > 255 then ioErr else pure { type := ty, width := w, height := h, maxValue := m }
 
 /-- is_allowed<View>(info, is_read_and_no_convert) -/
@@ -833,17 +844,17 @@ def token (site : String) : Nat → List Nat → M (Option (List Nat))
     | none => if acc.length > 0 then pure (some acc) else pure none
 
 /-- the `for (x < _scanline_length)` loop of read_text_row; returns the row buffer and whether all samples were read -/
-def textSamples (site : String) (fuel : Nat) (maxValue : Int) (process : Bool) : Nat → Nat → List Nat → M (List Nat × Bool)
+def textSamples (site : String) (maxValue : Int) (process : Bool) : Nat → Nat → List Nat → M (List Nat × Bool)
   | 0, _, row => pure (row, true)
   | n + 1, x, row => do
-    match ← token site fuel [] with
+    match ← token site (← fuelHere) [] with
     | none => pure (row, false)
     | some ds =>
       if process then
         let v := atoiByte ds
         let b := if maxValue == 1 then (if ds.foldl (fun v d => v * 10 + (d - 48)) 0 % 4294967296 ≠ 0 then 0 else 255) else v
-        textSamples site fuel maxValue process n (x + 1) (row.set x b)
-      else textSamples site fuel maxValue process n (x + 1) row
+        textSamples site maxValue process n (x + 1) (row.set x b)
+      else textSamples site maxValue process n (x + 1) row
 
 def gray1To (dst : Dst) (bits : List Nat) : List Nat :=
   match dst with
@@ -855,24 +866,24 @@ def gray8To (dst : Dst) (xs : List Nat) : List Nat :=
   | _ => xs
 
 /-- rows of read_text_data: `skip` rows without processing, then one row per destination row -/
-def textRows (i : Info) (st : Settings) (dimx : Int) (sl : Nat) (srcCh : Nat) (fuel : Nat) (site : String) :
+def textRows (i : Info) (st : Settings) (dimx : Int) (sl : Nat) (srcCh : Nat) (site : String) :
     Nat → Bool → Int → List Nat → Dest → M Dest
   | 0, _, _, _, d => pure d
   | n + 1, process, y, row, d => do
-    let (row, complete) ← textSamples site fuel i.maxValue process sl 0 row
+    let (row, complete) ← textSamples site i.maxValue process sl 0 row
     if process ∧ complete then
       -- copy_data: beg = src.row_begin(0) + top_left.x ; end = beg + dim.x
       let px ← sliceRow (fRead ++ ":copy_data") row srcCh st.x0 dimx sl
       let px := if srcCh == 1 then gray8To st.dst px else px
       let d ← d.setRow (fRead ++ ":copy_data") y px
-      textRows i st dimx sl srcCh fuel site n process (y + 1) row d
+      textRows i st dimx sl srcCh site n process (y + 1) row d
     else
       -- an incomplete row returns before copy_data: the destination row keeps its previous content
       if process then setTaint ("text row ended early (end of file or a non-numeric character): read_text_row returns silently, the destination row is never written (" ++ site ++ ")") else pure ()
-      textRows i st dimx sl srcCh fuel site n process (y + 1) row d
+      textRows i st dimx sl srcCh site n process (y + 1) row d
 
 /-- read_text_data -/
-def readTextData (i : Info) (st : Settings) (dimx : Int) (sl : Int) (srcCh : Nat) (fuel : Nat) (d : Dest) : M Dest := do
+def readTextData (i : Info) (st : Settings) (dimx : Int) (sl : Int) (srcCh : Nat) (d : Dest) : M Dest := do
   alloc sl
   let site := fRead ++ ":read_text_row"
   let rowsSkip := if st.y0 > 0 then st.y0.toNat else 0
@@ -882,8 +893,8 @@ def readTextData (i : Info) (st : Settings) (dimx : Int) (sl : Int) (srcCh : Nat
   else
     let row := List.replicate sl.toNat 0
     -- the skipped rows fill `row` with nothing (process = false)
-    let d ← textRows i st dimx sl.toNat srcCh fuel site rowsSkip false 0 row d
-    textRows i st dimx sl.toNat srcCh fuel site rowsRead true 0 row d
+    let d ← textRows i st dimx sl.toNat srcCh site rowsSkip false 0 row d
+    textRows i st dimx sl.toNat srcCh site rowsRead true 0 row d
 
 /-- in-place manipulators of a bit row: negate_bits then swap_half_bytes -/
 def manipBits (row : List Nat) : List Nat := row.map (fun b => let n := 255 - b; n % 16 * 16 + n / 16)
@@ -945,17 +956,17 @@ def readBinData (i : Info) (st : Settings) (dimx : Int) (sl : Int) (d : Dest) : 
     binRows i st dimx sl.toNat site rowsRead 0 buf d
 
 /-- reader::apply -/
-def apply (i : Info) (st : Settings) (dimx : Int) (fuel : Nat) (d : Dest) : M Dest := do
+def apply (i : Info) (st : Settings) (dimx : Int) (d : Dest) : M Dest := do
   if !isAllowed i st then ioErr
-  else if i.type == 1 ∨ i.type == 2 then readTextData i st dimx i.width 1 fuel d
-  else if i.type == 3 then readTextData i st dimx (i.width * 3) 3 fuel d
+  else if i.type == 1 ∨ i.type == 2 then readTextData i st dimx i.width 1 d
+  else if i.type == 3 then readTextData i st dimx (i.width * 3) 3 d
   else if i.type == 4 then readBinData i st dimx (wrapU 32 (i.width + 7) / 8) d
   else if i.type == 5 then readBinData i st dimx i.width d
   else readBinData i st dimx (i.width * 3) d
 
 /-- scanline reader: text row written straight into the iterator's buffer -/
-def scanTextRow (fuel : Nat) (maxValue : Int) (sl : Nat) (dst : List Nat) : M (List Nat) := do
-  let (row, complete) ← textSamples (fScan ++ ":read_text_row") fuel maxValue true sl 0 dst
+def scanTextRow (maxValue : Int) (sl : Nat) (dst : List Nat) : M (List Nat) := do
+  let (row, complete) ← textSamples (fScan ++ ":read_text_row") maxValue true sl 0 dst
   if !complete then setTaint ("text row ended early (end of file or a non-numeric character): read_text_row returns silently, the rest of the scanline is stale (" ++ fScan ++ ":read_text_row)") else pure ()
   pure row
 
@@ -965,7 +976,7 @@ def scanRows (rowFn : List Nat → M (List Nat)) : Nat → List Nat → List (Li
     let buf ← rowFn buf
     scanRows rowFn n buf (buf :: acc)
 
-def scan (i : Info) (fuel : Nat) : M Img := do
+def scan (i : Info) : M Img := do
   let sl : Int :=
     if i.type == 1 ∨ i.type == 2 ∨ i.type == 5 then i.width
     else if i.type == 3 ∨ i.type == 6 then i.width * 3
@@ -977,7 +988,7 @@ def scan (i : Info) (fuel : Nat) : M Img := do
   else
     let site := fScan ++ ":read_binary_row"
     let rs ← scanRows (fun dst => do
-        if i.type ≤ 3 then scanTextRow fuel i.maxValue sl.toNat dst
+        if i.type ≤ 3 then scanTextRow i.maxValue sl.toNat dst
         else
           let (row, got) ← readInto site dst sl.toNat
           if got < sl.toNat then setTaint ("short row read used as pixel data in " ++ site) else pure ()
@@ -985,20 +996,20 @@ def scan (i : Info) (fuel : Nat) : M Img := do
       i.height.toNat (List.replicate sl.toNat 0) []
     pure { hdr := [i.width, i.height, sl, i.height], pix := rs.reverse.flatten }
 
-def run (st : Settings) (fuel : Nat) : M Img := do
-  let i ← readHeader fuel
+def run (st : Settings) : M Img := do
+  let i ← readHeader
   let dimx := if st.dw == 0 then i.width else st.dw
   let dimy := if st.dh == 0 then i.height else st.dh
   match st.entry with
   | .info => pure { hdr := [i.width, i.height, i.type, i.maxValue], pix := [] }
-  | .scan => scan i fuel
+  | .scan => scan i
   | .view =>
     checkImageSize st dimx dimy i.width i.height
-    let d ← apply i st dimx fuel (Dest.mk' st.vw st.vh st.dst.nch)
+    let d ← apply i st dimx (Dest.mk' st.vw st.vh st.dst.nch)
     pure { hdr := [st.vw, st.vh], pix := d.pix }
   | _ =>
     let d ← recreateImage st dimx dimy
-    let d ← apply i st dimx fuel d
+    let d ← apply i st dimx d
     pure { hdr := [dimx, dimy], pix := d.pix }
 
 end Pnm
@@ -1115,7 +1126,7 @@ def rleCopyRows (i : Info) (st : Settings) (dimx : Int) (bpp : Nat) (data : List
     rleCopyRows i st dimx bpp data firstRow n (y + 1) d
 
 /-- read_rle_data -/
-def readRleData (i : Info) (st : Settings) (dimx dimy : Int) (fuel : Nat) (d : Dest) : M Dest := do
+def readRleData (i : Info) (st : Settings) (dimx dimy : Int) (d : Dest) : M Dest := do
   let bpp := (i.bpp / 8).toNat
   -- size_t image_size = _info._width * _info._height * bytes_per_pixel   (uint16 * uint16 * uint8 in int)
   if !inS32 (i.width * i.height) ∨ !inS32 (i.width * i.height * bpp) then
@@ -1124,20 +1135,20 @@ def readRleData (i : Info) (st : Settings) (dimx dimy : Int) (fuel : Nat) (d : D
     let imageSize := (i.width * i.height * bpp).toNat
     alloc imageSize
     seekSet i.offset
-    let chunks ← rleLoop bpp imageSize fuel 0 []
+    let chunks ← rleLoop bpp imageSize (← fuelHere) 0 []
     let data := chunks.reverse.flatten
     let firstRow : Int := if i.origin then i.height - st.y0 - dimy else st.y0
     if dimy < 0 then stop (.hang "negative dim.y: `y != dim.y` is never reached")
     else rleCopyRows i st dimx bpp data firstRow dimy.toNat 0 d
 
 /-- reader::apply -/
-def apply (i : Info) (st : Settings) (dimx dimy : Int) (fuel : Nat) (d : Dest) : M Dest := do
+def apply (i : Info) (st : Settings) (dimx dimy : Int) (d : Dest) : M Dest := do
   if st.entry ≠ .conv ∧ st.dst.bits ≠ i.bpp then ioErr
   else if i.imageType == 2 ∨ i.imageType == 10 then
     if i.cmType ≠ 0 then ioErr
     else if i.cmLength ≠ 0 then ioErr
     else if i.imageType == 2 then readData i st dimx dimy d
-    else readRleData i st dimx dimy fuel d
+    else readRleData i st dimx dimy d
   else ioErr
 
 def scanRows (i : Info) (sl : Nat) : Nat → Int → List Nat → List (List Nat) → M (List (List Nat))
@@ -1161,7 +1172,7 @@ def scan (i : Info) : M Img := do
     let rs ← scanRows i sl.toNat i.height.toNat 0 (List.replicate sl.toNat 0) []
     pure { hdr := [i.width, i.height, sl, i.height], pix := rs.reverse.flatten }
 
-def run (st : Settings) (fuel : Nat) : M Img := do
+def run (st : Settings) : M Img := do
   let i ← readHeader
   let dimx := if st.dw == 0 then i.width else st.dw
   let dimy := if st.dh == 0 then i.height else st.dh
@@ -1170,11 +1181,11 @@ def run (st : Settings) (fuel : Nat) : M Img := do
   | .scan => scan i
   | .view =>
     checkImageSize st dimx dimy i.width i.height
-    let d ← apply i st dimx dimy fuel (Dest.mk' st.vw st.vh st.dst.nch)
+    let d ← apply i st dimx dimy (Dest.mk' st.vw st.vh st.dst.nch)
     pure { hdr := [st.vw, st.vh], pix := d.pix }
   | _ =>
     let d ← recreateImage st dimx dimy
-    let d ← apply i st dimx dimy fuel d
+    let d ← apply i st dimx dimy d
     pure { hdr := [dimx, dimy], pix := d.pix }
 
 end Tga
@@ -1185,17 +1196,15 @@ inductive Fmt where
   | bmp | pnm | tga
   deriving DecidableEq, Repr
 
-/-- fuel for the loops that are not bounded by a counter: one unit per input byte plus a constant -/
-def fuelFor (bytes : List UInt8) : Nat := bytes.length + 2
 
 /-- raw result: the monad's answer and the final state (the driver needs the taint separately) -/
 def runRaw (f : Fmt) (dev : Dev) (bytes : List UInt8) (st : Settings) : Except Stop (Img × St) :=
   let data := bytes.map UInt8.toNat
   let s0 : St := { data := data, pos := 0, rest := data, failed := false, dev := dev, taint := none }
   match f with
-  | .bmp => (Bmp.run st (fuelFor bytes)).run s0
-  | .pnm => (Pnm.run st (fuelFor bytes)).run s0
-  | .tga => (Tga.run st (fuelFor bytes)).run s0
+  | .bmp => (Bmp.run st).run s0
+  | .pnm => (Pnm.run st).run s0
+  | .tga => (Tga.run st).run s0
 
 /-- `decode`: the outcome the property speaks about. A successful return that consumed bytes a short read
     did not deliver counts as undefined behaviour (uninitialised / stale bytes used as data). -/
